@@ -623,14 +623,44 @@ func C20(c *core.Ctx) {
 	if c.Thorough() {
 		d1, d2 = 8, 5
 	}
+	// third search, deeper, over the operations that put wildcard siblings under one level
+	// and take them away again (subscribe a/+,b / a/# / a/+,a/c; unsubscribe a/+ / a/#;
+	// acknowledgements; a delivery on a/c)
+	var sib, main []int
+	for i, o := range ops {
+		if !((o.kind == "api:sub" || o.kind == "api:unsub") && o.filters[0] == "a/#") {
+			main = append(main, i) // the two a/# operations belong to the third search only
+		}
+		switch {
+		case o.kind == "api:sub" && o.filters[0] != "a", o.kind == "api:unsub" && len(o.filters) == 1 && o.filters[0] != "a",
+			o.kind == "srv:suback", o.kind == "srv:unsuback", o.kind == "srv:pub" && o.payload == "m1":
+			sib = append(sib, i)
+		}
+	}
 	for _, s := range []struct {
 		name  string
 		depth int
 		dedup bool
-	}{{"dispatch", d1, true}, {"dispatch-sequences", d2, false}} {
-		o := explore.HistOpts{Name: s.name, NOps: len(ops), OpName: func(i int) string { return ops[i].String() }, MaxDepth: s.depth, Dedup: s.dedup,
+		sel   []int
+	}{{"dispatch", d1, true, main}, {"dispatch-sequences", d2, false, main}, {"dispatch-wildcard-siblings", d1 + 1, true, sib}} {
+		s := s
+		mapped := func(h []int) []int {
+			if s.sel == nil {
+				return h
+			}
+			out := make([]int, len(h))
+			for i, k := range h {
+				out[i] = s.sel[k]
+			}
+			return out
+		}
+		nops := len(ops)
+		if s.sel != nil {
+			nops = len(s.sel)
+		}
+		o := explore.HistOpts{Name: s.name, NOps: nops, OpName: func(i int) string { return ops[mapped([]int{i})[0]].String() }, MaxDepth: s.depth, Dedup: s.dedup,
 			Shard: c.Shard, NShards: c.NShards, Deadline: c.Deadline,
-			Run: func(h []int) (string, string, int) { return runDispatch(ops, h, false) }}
+			Run: func(h []int) (string, string, int) { return runDispatch(ops, mapped(h), false) }}
 		st := explore.Hist(o)
 		r := c.Rep
 		r.Scenarios++
@@ -646,7 +676,7 @@ func C20(c *core.Ctx) {
 		r.Notes = append(r.Notes, fmt.Sprintf("%s: complete to depth %d (fixpoint=%v)", s.name, st.DepthDone, st.Fixpoint))
 		r.Sample(map[string]interface{}{"search": s.name, "alphabet": len(ops), "depth": st.DepthDone, "states": st.States, "histories": st.Histories})
 		if st.Violation != "" {
-			in, _ := json.Marshal(st.Hist)
+			in, _ := json.Marshal(mapped(st.Hist))
 			key := "C20 " + s.name + " :: " + violClass(st.Violation)
 			if strings.HasPrefix(st.Violation, "overlap:") {
 				key = KnownOverlap
@@ -680,6 +710,8 @@ func dispatchOps(thorough bool) []cop {
 	}
 	// overlapping filters in one request (the listed finding)
 	ops = append(ops, cop{kind: "api:sub", filters: []string{"a/+", "a/c"}, qoss: []byte{0, 1}})
+	// a second wildcard next to a/+ under the same level, and its removal
+	ops = append(ops, cop{kind: "api:sub", filters: []string{"a/#"}, qoss: []byte{1}}, cop{kind: "api:unsub", filters: []string{"a/#"}})
 	if thorough {
 		// a topic nobody subscribes
 		ops = append(ops, cop{kind: "srv:pub", topic: "c", qos: 0, payload: "m3"})
